@@ -20,6 +20,14 @@ func genC10TF(g *Gen) error {
 		}
 		g.P("def %s : Nat := %s", c, v)
 	}
+	pw, err := g.Const("engine/index/tsi/mergeset_index.go", "PruneWithSetTagValSize")
+	if err != nil {
+		return err
+	}
+	if !isIntLit(pw) {
+		return fmt.Errorf("PruneWithSetTagValSize is not an integer literal: %s", pw)
+	}
+	g.P("def pruneWithSetTagValSize : Nat := %s", pw)
 	for _, fn := range []string{"isDotStar", "isDotPlus", "getOrValuesExt", "getOptimizedReMatchFuncExt", "simplifyRegexpExt"} {
 		rows, err := g.SwitchTable(tf, fn)
 		if err != nil {
@@ -54,6 +62,20 @@ func genC10TF(g *Gen) error {
 		{tf, "getOrValues"}, {tf, "getOrValuesExt"}, {tf, "extractRegexpPrefix"}, {tf, "simplifyRegexp"},
 		{tf, "simplifyRegexpExt"}, {tf, "tagFilter.SetRegexMatchAll"},
 		{"engine/index/tsi/search.go", "indexSearch.getTSIDsForTagFilterSlow"},
+		{"engine/index/tsi/search.go", "chooseINPriority"},
+		{"engine/index/tsi/search.go", "indexSearch.seriesByINExprIterator"},
+		{"engine/index/tsi/search.go", "indexSearch.seriesByBinaryExprSetLiteral"},
+		{"engine/index/tsi/search.go", "indexSearch.seriesByBinaryExprVarRef"},
+		{"engine/index/tsi/search.go", "indexSearch.seriesByOneTagFilter"},
+		{"engine/index/tsi/search.go", "indexSearch.seriesByAllIdsIterator"},
+		{"engine/index/tsi/search.go", "isFieldExpr"},
+		{"engine/index/tsi/search.go", "isAllFieldExpr"},
+		{"engine/index/tsi/search.go", "indexSearch.isAllAndOpValid"},
+		{"engine/index/tsi/search.go", "indexSearch.isAllAndSubExprValid"},
+		{"engine/index/tsi/search.go", "indexSearch.isAllAndValueExprValid"},
+		{"engine/index/tsi/search_prune.go", "indexSearch.doPruneWithSet"},
+		{"engine/index/tsi/search_prune.go", "matchSeriesKeyWithSet"},
+		{"engine/index/tsi/search_prune.go", "matchSeriesKeyWithSetTag"},
 		{"engine/index/tsi/search.go", "indexSearch.collectTSIDsForSuffix"},
 	} {
 		fp, err := g.Fingerprint(e[0], e[1])
